@@ -9,7 +9,8 @@ import Lattigo.Model.KeySwitch
   evk   comp kind N Q P lq lp w galEl s s2 A E [A2]        → shape|polys         (key generation)
         comp 0 = plain, 1 = compressed (first components only), 2 = compressed then expanded with the
         seed-regenerated stream A2;  kind gen|relin|gal
-  gp|gpl|apply|relin|aut|auth|autl  N Q P lq lp w isNTT galEl nbPi shape evk ct   → polys
+  gp|gpl|apply|relin|aut|auth|autl|applyup|applydown  N Q P lq lp w isNTT galEl nbPi shape evk ct   → polys
+        (for applyup/applydown the galEl slot carries gap = N/n)
   A list of polynomials is `rows;rows;…` joined by `/`.
 -/
 namespace Driver.C04
@@ -134,6 +135,13 @@ def handleKs (op : String) (toks : List String) : Option String := do
     | "autl", [c0, c1] =>
         let r := automorphismHoistedLazy σ (gadgetProductHoistedLazyR qsP nbPi nQkey key c1)
           (scaleByP qsP c0)
+        some (showPolys [r.1, r.2])
+    | "applyup", [c0, c1] =>
+        -- galEl slot = gap; the ciphertext is in the small ring
+        let r := applyEvaluationKeyUp (embedR galEl) (gadgetProductR qsP w nQkey key) (c0, c1)
+        some (showPolys [r.1, r.2])
+    | "applydown", [c0, c1] =>
+        let r := applyEvaluationKeyDown (projectR galEl) (gadgetProductR qsP w nQkey key c1) (c0, c1)
         some (showPolys [r.1, r.2])
     | _, _ => none
   | _ => none
